@@ -377,6 +377,41 @@ func (t *Twin) Do(step []any) (Obs, error) {
 		}
 		return okObs(), nil
 
+	case "Wstat": // several fields in one Twstat: chmod, rename, truncate, times, in ufs.go's order
+		nn, n, perm, m := nm.Raw(toStr(step[2])), toInt(step[3]), toInt(step[4]), toInt(step[5])
+		if _, err := os.Lstat(w.Host(F.Path)); err != nil {
+			return errObs(0), nil
+		}
+		if perm >= 0 {
+			if err := os.Chmod(w.Host(F.Path), os.FileMode(perm&0o777)); err != nil {
+				return errObs(0), nil
+			}
+		}
+		if nn != "" {
+			var dest []string
+			if nn[0] == '/' {
+				dest = norm(rootPath, strings.Split(nn, "/"), len(rootPath))
+			} else {
+				c := clean(F.Path)
+				dest = norm(c[:len(c)-1], strings.Split(nn, "/"), len(rootPath))
+			}
+			if err := syscall.Rename(w.Host(F.Path), w.Host(dest)); err != nil {
+				return errObs(0), nil
+			}
+			F.Path = dest
+		}
+		if n >= 0 {
+			if err := os.Truncate(w.Host(F.Path), int64(n)); err != nil {
+				return errObs(0), nil
+			}
+		}
+		if m > 0 {
+			if err := os.Chtimes(w.Host(F.Path), MtTime(m), MtTime(m)); err != nil {
+				return errObs(0), nil
+			}
+		}
+		return okObs(), nil
+
 	case "Write":
 		off, n := toInt(step[2]), toInt(step[3])
 		if _, err := os.Lstat(w.Host(F.Path)); F.F == nil || F.Open&3 == 0 || F.Qt == "D" || err != nil {
